@@ -123,8 +123,14 @@ func writeSMT(o *Obligation, path string, axioms []*Term, forCVC5 bool, getValue
 	for _, a := range axioms {
 		fmt.Fprintf(&sb, "(assert %s)\n", a.String())
 	}
+	seenH := map[string]bool{}
 	for _, h := range o.Hyps {
-		fmt.Fprintf(&sb, "(assert %s)\n", h.String())
+		hs := h.String()
+		if seenH[hs] {
+			continue
+		}
+		seenH[hs] = true
+		fmt.Fprintf(&sb, "(assert %s)\n", hs)
 	}
 	if !o.Cover {
 		fmt.Fprintf(&sb, "(assert (not %s))\n", o.Goal.String())
